@@ -421,6 +421,13 @@ def run(tier, replay):
         for st in r["steps"]:
             if st["res"] == 2:
                 oracle_fail.append({"case": r["case"], "failures": ["call %s panicked: %s" % (st["op"], st.get("res_text"))]})
+            # a signing context is single use: once a finalize has produced the wallet's partial
+            # signature, the stored secret key and nonce must be gone — a context left behind lets a
+            # second reply be signed with the same nonce under another challenge
+            if st["op"][0] in (2, 5) and st["res"] == 0 and st.get("ctx_after"):   # OP_FIN / OP_FININV
+                oracle_fail.append({"case": r["case"], "failures": [
+                    "call %s signed and returned a finalized slate but left its private context (secret nonce "
+                    "and excess) stored: the nonce can sign again" % (st["op"],)]})
     if hist_rows:
         samples.append({"kind": "hist", "ops": hist_rows[0]["case"]["ops"][:8], "stats": hist_rows[0]["stats"]})
     scan_stats = collections.Counter()
